@@ -59,6 +59,10 @@ LeaveSeat(tb, s) ==      \* table.leave
 TbLeave(tb, s) == LeaveSeat(tb, s)
 TbReserve(tb, s) == LET r == SM!OpReserve(tb.sm, s) IN TR([tb EXCEPT !.sm = r.m], r.res)
 
+\* SetAnte / SetBlinds: the options of the table change at once; the next game that is started takes them
+TbSetAnte(tb, x) == TR([tb EXCEPT !.opt.ante = x], "")
+TbSetBlinds(tb, d, sb, bb) == TR([tb EXCEPT !.opt.dealerBlind = d, !.opt.sb = sb, !.opt.bb = bb], "")
+
 (* ---- the hand loop ---- *)
 \* setupPosition after a successful sm.Next: positions and the playable flag of every seated player
 WithPositions(tb) ==
